@@ -30,9 +30,21 @@ def check_pairs(items, res, stratum):
             if build == 'indexed' and shx is None and shy is None:
                 # scalar operands obtained by indexing an array (their raw value is a NumPy scalar or a Python int)
                 x = A.mk(fx, np, *fxm, [0, cx[0]], shape=(2,), **cfg2)[1]; y = A.mk(fx, np, *fym, [cy[0], 0], shape=(2,))[0]
+            if build == 'intval_indexed' and shx is None and shy is None and fxm[2] == 0 and fym[2] == 0:
+                # elements of arrays built from integer VALUES (an integer value type and a NumPy-scalar raw value at once)
+                x = fx.Fxp(np.array([0, cx[0]], dtype=np.int64), *fxm, **cfg2)[1]; y = fx.Fxp(np.array([cy[0], 0], dtype=np.int64), *fym)[0]
             if build == 'iterated' and shx is None and shy is None:
                 # scalar operands obtained by ITERATING over an array (for a in x / zip(x, y) / list(x))
                 x = [e for e in A.mk(fx, np, *fxm, [0, cx[0]], shape=(2,), **cfg2)][1]; y = list(A.mk(fx, np, *fym, [cy[0], 0], shape=(2,)))[0]
+            if build == 'rewritten' and shx is not None and len(shx) == 1:
+                # an array operand that was used in the same operation BEFORE, holding other codes, and whose codes were then rewritten in place
+                # through a view (v = x[0:n]; v[i] = ...): the operation sees the codes held now
+                lo_, hi_ = S.fmt_bounds(fxm[0], fxm[1])
+                x = A.mk(fx, np, *fxm, [hi_ if t != hi_ else lo_ for t in cx], shape=shx, **cfg2)
+                _ = A.do_op(fx, np, op, x, y, route)
+                v_ = x[0:len(cx)]
+                for i_, t in enumerate(cx): v_[i_] = A.mk(fx, np, *fxm, t)
+                if lib.codes_of(x) != list(cx): x = A.mk(fx, np, *fxm, cx, shape=shx, **cfg2)      # (whether the write reaches x is C20's matter)
             z = A.do_op(fx, np, op, x, y, route)
             if cfg2.get('array_output_type') == 'array' and isinstance(z, np.ndarray):
                 # the configuration asks for a plain array of VALUES from NumPy functions: compared with the exact results
@@ -82,6 +94,7 @@ def check_pairs(items, res, stratum):
             exact_ok = Fraction(zc[j]) / Fraction(2) ** zf[2] == sp[j]['exact']
             if zc[j] != sp[j]['code'] or (not exact_ok and not (uu_sub and sp[j]['exact'] < 0)):
                 one = dict(full); one['cx'] = [int(bx[j])]; one['cy'] = [int(by[j])]; one['shape_x'] = None; one['shape_y'] = None
+                if full['cfg'].get('_build') == 'rewritten': one = full      # (the history of the whole array is part of the failing input)
                 res.fail(one, 'C07: %s with optimal sizing is not the exact result' % full['op'], expected={'code': sp[j]['code'], 'exact': str(sp[j]['exact'])}, got=zc[j]); bad = True; break
         if bad: continue
         want_flags = (any(s_['ovf'] for s_ in sp), any(s_['unf'] for s_ in sp))
@@ -139,12 +152,19 @@ def random_items(rng, n):
         if shy is None and ky != 1: cy = cy[:1]
         if shx is not None and shy is not None and kx != ky and kx != 1 and ky != 1: continue
         if forced:
-            items.append((op, fxm, cx, shx, fym, cy, shy, rng.choice(['operator', 'numpy']), {'op_method': 'repr', '_build': 'intval'})); continue
+            if rng.random() < 0.3:      # directed: scalar elements (by index) of integer-valued arrays, both signedness pairs, by the operators
+                sx_, sy_ = rng.choice([(False, False), (False, False), (True, False), (False, True), (True, True)])
+                fxm = (sx_, fxm[1], 0); fym = (sy_, fym[1], 0)
+                if A.grow_word(op, fxm, fym) > 53: continue
+                cx = A.interesting_codes(rng, fxm[0], fxm[1], 1); cy = A.interesting_codes(rng, fym[0], fym[1], 1)
+                items.append((op, fxm, cx, None, fym, cy, None, 'operator', {'op_method': 'repr', '_build': 'intval_indexed'})); continue
+            items.append((op, fxm, cx, shx, fym, cy, shy, rng.choice(['operator', 'numpy']), {'op_method': 'repr', '_build': rng.choice(['intval', 'intval_indexed'])})); continue
         cfg_ = ({'op_method': 'repr'} if rng.random() < 0.3 else {}) | ({'_build': 'intval'} if rng.random() < 0.4 else {})
         # how an operand presents itself to NumPy (array_op_method) is a field of its own configuration: the operators compute on values in both settings
         if rng.random() < 0.3: cfg_['array_op_method'] = 'raw'
         if rng.random() < 0.15 and '_build' not in cfg_: cfg_['array_output_type'] = 'array'      # (only the NumPy-function route looks at it)
         if rng.random() < 0.3 and '_build' not in cfg_: cfg_['_ycfg'] = {'array_op_method': 'raw'}
+        if shx is not None and len(cx) > 1 and '_build' not in cfg_ and 'array_output_type' not in cfg_ and rng.random() < 0.4: cfg_['_build'] = 'rewritten'
         items.append((op, fxm, cx, shx, fym, cy, shy, rng.choice(['operator', 'func', 'numpy']), cfg_))
     return items
 
